@@ -24,7 +24,9 @@ Outcome(F, s) ==
 
 Init == l = 1 /\ viol = {}
 Obs == /\ l <= Len(Trace) /\ l' = l + 1
-       /\ viol' = IF Ev.out = Outcome(Ev.files, Ev.sum) THEN viol ELSE viol \cup {<<Ev.id, Ev.c, Outcome(Ev.files, Ev.sum), Ev.out>>}
+       \* ... and an observation taken right after `migrate hash` must be "ok" whatever the directory looked like before (DirSum!WritersValid)
+       /\ viol' = IF Ev.out = Outcome(Ev.files, Ev.sum) /\ (Ev.writer => Ev.out = "ok") THEN viol
+                  ELSE viol \cup {<<Ev.id, Ev.c, IF Ev.writer THEN "ok" ELSE Outcome(Ev.files, Ev.sum), Ev.out>>}
 Next == /\ Obs
         /\ (l' = Len(Trace) + 1) => PrintT(<<"VIOLS", ToJson(viol')>>)
 Spec == Init /\ [][Next]_<<l, viol>>
